@@ -435,7 +435,13 @@ class Runner(object):
             self.arch_obj = new
             self.swapped = True      # from now on the attached archive is an in-memory one, not the store
             self.assigned = new
-            self.retr.clear()   # the user replaced the archive: nothing is owed from the old one
+            # the user replaced the archive: what only the old one held is no longer owed, what is resident still is
+            # (when it leaves memory it has to reach the *new* archive)
+            # (the non-caching decorator's memory is scratch space emptied after every call: nothing resident is owed)
+            resident = set(skey(x) for x in self.mem()) if self.algo != 'no' else set()
+            for r in list(self.retr):
+                if r not in resident:
+                    del self.retr[r]
         elif kind == 'overfill':
             # direct mutation of the in-memory cache with *correct* entries
             for a, k in op[1]:
@@ -1076,6 +1082,8 @@ def gen_case(rng, focus, nops=None):
             universe += [u'\u2126', u'\u03a9']       # OHM SIGN / GREEK CAPITAL OMEGA
     if focus == 'C18':
         universe += [2.54, 2.51, 0.12345, 1.005]
+        if rng.random() < 0.4:
+            universe += [1.0, True, 2.0]          # ==-equal look-alikes of other arguments
         if cfg.get('deep'):
             universe += [(2.54, 'a'), (2.51, 'a'), (1, (0.12345, 2))]
     if km['typed'] and focus in ('C01', 'C02', 'C15') and gen.result_mode(b) == 'tuple' and rng.random() < 0.6:
